@@ -35,17 +35,19 @@ type c10Scenario struct {
 	Actions []string  `json:"actions"` // per initial subscription
 	Targets []int     `json:"targets"` // for unsubOther
 	NDerive int       `json:"derived_subs"`
+	Map2    bool      `json:"second_level_map"`
 	Threads [][]c10Op `json:"threads"`
 
-	h        *Hist
-	probes   map[string]int
-	subs     []*c10Sub
-	pubs     []*c10Pub
-	deliv    []c10Deliv
-	hTID     int
-	hung     bool
-	extra    []Violation
-	overlapE bool
+	h         *Hist
+	probes    map[string]int
+	subs      []*c10Sub
+	pubs      []*c10Pub
+	deliv     []c10Deliv
+	hTID      int
+	hung      bool
+	extra     []Violation
+	overlapE  bool
+	nestedVal int
 }
 
 type c10Sub struct {
@@ -58,6 +60,7 @@ type c10Sub struct {
 	target  int
 	fired   bool
 	initial bool
+	level   int
 }
 
 type c10Pub struct {
@@ -78,11 +81,21 @@ func genC10(t *simrt.Tape, tier string) Scenario {
 	sc.Map = t.Bool(1, 3)
 	sc.NSubs = 3 + t.Choose(4)
 	for i := 0; i < sc.NSubs; i++ {
-		sc.Actions = append(sc.Actions, []string{"none", "unsubSelf", "unsubOther", "subNew"}[t.ChooseW([]int{4, 2, 2, 1})])
+		sc.Actions = append(sc.Actions, []string{"none", "unsubSelf", "unsubOther", "subNew", "publishNested"}[t.ChooseW([]int{4, 2, 2, 1, 1})])
 		sc.Targets = append(sc.Targets, t.Choose(sc.NSubs))
 	}
 	if sc.Map {
 		sc.NDerive = 1 + t.Choose(2)
+		sc.Map2 = t.Bool(1, 3)
+	}
+	if sc.Handler {
+		// a callback running on the handler that publishes again would post to its own (unbuffered)
+		// handler: a self-deadlock by design, not a subject of the property
+		for i, a := range sc.Actions {
+			if a == "publishNested" {
+				sc.Actions[i] = "none"
+			}
+		}
 	}
 	maxT, maxOps := 2, 4
 	if tier == "thorough" {
@@ -153,6 +166,11 @@ func (sc *c10Scenario) Run(s *simrt.Sim) {
 					}
 				case "subNew":
 					newSub(cb, p, false, "none", 0)
+				case "publishNested":
+					sc.nestedVal++
+					nv := 500000 + sc.nestedVal
+					po := h.Do(cb, "Publish", nv, func() (interface{}, error) { p.Publish(nv); return nil, nil })
+					sc.pubs = append(sc.pubs, &c10Pub{op: po, val: nv})
 				}
 			}})
 			return nil, nil
@@ -176,6 +194,12 @@ func (sc *c10Scenario) Run(s *simrt.Sim) {
 		for i := 0; i < sc.NDerive; i++ {
 			cs := newSub("main", m, true, "none", 0)
 			cs.initial = true
+		}
+		if sc.Map2 {
+			m2 := m.Map(func(v int) int { return v + c10MapOffset })
+			cs := newSub("main", m2, true, "none", 0)
+			cs.initial = true
+			cs.level = 2
 		}
 	}
 	var ths []*simrt.Thread
@@ -253,6 +277,9 @@ func (sc *c10Scenario) Check(res *simrt.Result) []Violation {
 			want := P.val
 			if cs.derived {
 				want = P.val + c10MapOffset
+				if cs.level == 2 {
+					want += c10MapOffset
+				}
 			}
 			n := 0
 			var first c10Deliv
@@ -324,7 +351,7 @@ func (sc *c10Scenario) Check(res *simrt.Result) []Violation {
 	for _, d := range sc.deliv {
 		ok := false
 		for _, P := range sc.pubs {
-			if d.val == P.val || d.val == P.val+c10MapOffset {
+			if d.val == P.val || d.val == P.val+c10MapOffset || d.val == P.val+2*c10MapOffset {
 				ok = true
 			}
 		}
